@@ -21,6 +21,11 @@ def run(ctx):
     if r is None:
         return
     ledger_rules(ctx, m, *r)
+    # "the volume an order has lost other than through an explicit volume modification equals the sum of its logged trades": the
+    # only volume writer besides the fill is modify_order (conservation rule above) - and it must change the volume only as
+    # requested: kept when the volume is omitted, the requested value otherwise (C06's per-case rules on modify_order)
+    from .c06 import modify_rules, _Prefixed
+    modify_rules(_Prefixed(ctx, "conservation-modify-"), m, with_typestate=False)
 
 
 def fill_rules(ctx, m, census=False):
